@@ -11,11 +11,22 @@ from implutil import main, capture, write_event_file, data_array_cells, fast_pol
 def install_job_wrapper(delays=None, fsize_limit=None, fail_index=None):
     """wrap the conversion job BEFORE the pool forks: sleep per chunk index (permutes the completion
     order), and/or install a file-size limit inside the job (EFBIG while a chunk is written)"""
+    import inspect
     import pyndl.preprocess as pp
-    orig = pp._job_binary_event_file
+    # The conversion jobs write their chunk through the PUBLIC function write_events, looked up in the module when the
+    # job runs (in a pool worker forked after this patch): wrapping it reaches every job without relying on private
+    # names, on the names of the temporary files or on how the jobs are submitted.  The chunk index is start/(stop-start).
+    orig = pp.write_events
+    sig = inspect.signature(orig)
 
-    def _job_binary_event_file(**kw):
-        idx = int(os.path.basename(kw["file_name"])[9:-4])
+    def write_events(*a, **kw):
+        try:
+            ba = sig.bind(*a, **kw)
+            ba.apply_defaults()
+            start, stop = int(ba.arguments["start"]), int(ba.arguments["stop"])
+            idx = start // (stop - start) if stop > start else 0
+        except Exception:
+            idx = 0
         if delays:
             time.sleep(delays[idx % len(delays)])
         if fsize_limit is not None and (fail_index is None or idx == fail_index):
@@ -23,13 +34,14 @@ def install_job_wrapper(delays=None, fsize_limit=None, fail_index=None):
             old = resource.getrlimit(resource.RLIMIT_FSIZE)
             resource.setrlimit(resource.RLIMIT_FSIZE, (fsize_limit, old[1]))
             try:
-                return orig(**kw)
+                return orig(*a, **kw)
             finally:
                 resource.setrlimit(resource.RLIMIT_FSIZE, old)
-        return orig(**kw)
-    _job_binary_event_file.__module__ = "pyndl.preprocess"
-    _job_binary_event_file.__qualname__ = "_job_binary_event_file"
-    pp._job_binary_event_file = _job_binary_event_file
+        return orig(*a, **kw)
+    write_events.__module__ = orig.__module__
+    write_events.__qualname__ = "write_events"
+    write_events.__doc__ = orig.__doc__
+    pp.write_events = write_events
 
 
 def handler(job):
